@@ -73,6 +73,19 @@ def run(prog, ctx):
     MAXT = 9223372036854775807
     CT = "theta::sketch::CompactThetaSketch"
     n_e = 0
+    # model of the entry reader: a list with as many items as its count argument says (the count is the usize parameter; the
+    # other integer parameter is theta)
+    re_fn = next((g for g in prog.fns.values() if not g.promoted and g.owner == CT and g.item_name == "read_entries"), None)
+    cnt_pos = None
+    if re_fn is not None:
+        cp = [i for i in range(re_fn.argc) if re_fn.local_ty(i + 1) in ("usize", "u32")]
+        if len(cp) == 1:
+            cnt_pos = cp[0]
+
+    def read_entries_model(*a):
+        if cnt_pos is None or cnt_pos >= len(a) or a[cnt_pos] is None:
+            raise formula.Uneval("entry reader not modelled")
+        return [0] * min(int(a[cnt_pos]), 64)
     for f in [x for x in prog.fns.values() if not x.promoted and x.owner == CT and x.item_name.startswith("deserialize")]:
         sf = sym.Sym(prog, f)
         aggs = {}
@@ -113,7 +126,7 @@ def run(prog, ctx):
             for vals in itertools.product(*doms):
                 env = dict(zip(keys, vals))
                 env["@prog"] = prog
-                env["@fn:read_entries"] = lambda c, n, t: [0] * min(int(n), 64) if n is not None else None
+                env["@fn:read_entries"] = read_entries_model
                 env["@lenient"] = ("read_entries",)
                 # the arm must be reachable with these field values: some path's decisions all hold (a decision that cannot be
                 # evaluated - remaining input, seed hash - is taken as satisfiable)
